@@ -2,14 +2,29 @@
 
 package rules
 
-// C14 driver: generated default rules x rule definitions through the real
-// NewRuleFactory / CreateRule with a stub mechanism factory.  Observation: the
-// created rule's four stage lists (kind, id, has-condition) and its backtracking
-// flag, or rejection / panic.
+// C14 driver, three streams.
+//
+//   factory (TestVerifC14): generated default rules x rule definitions through the real
+//     NewRuleFactory / CreateRule with a stub mechanism catalogue; half of the default rules reach
+//     the factory as YAML through the real configuration loader (config.NewConfiguration).
+//   ruleset (TestVerifC14RuleSet): the same definitions as YAML text through the real rule-set
+//     parser, rule-set processor (OnCreated, or OnUpdated over a preloaded set) and repository.
+//   realfactory (TestVerifC14Real): definitions over a catalogue of REAL mechanisms created by
+//     the real mechanisms.NewMechanismFactory, with genuinely unknown ids and bad overrides.
+//
+// Observation (factory, ruleset): only through rule.Rule / rule.Repository — the trace of
+// mechanisms executed by Execute for 12 probe requests (3 methods x {nothing fails, the
+// authenticators fail, the authorization stage fails, the finalization stage fails}) and
+// AllowsBacktracking().  The stub mechanisms log (kind, id, override marker) into the probe
+// carried by the request's context.  realfactory reads the ids of the created mechanisms.
 
 import (
+	"context"
 	"errors"
 	"fmt"
+	"net/url"
+	"os"
+	"path/filepath"
 	"strings"
 	"testing"
 
@@ -18,6 +33,7 @@ import (
 	"github.com/dadrus/heimdall/internal/config"
 	"github.com/dadrus/heimdall/internal/heimdall"
 	config2 "github.com/dadrus/heimdall/internal/rules/config"
+	"github.com/dadrus/heimdall/internal/rules/mechanisms"
 	"github.com/dadrus/heimdall/internal/rules/mechanisms/authenticators"
 	"github.com/dadrus/heimdall/internal/rules/mechanisms/authorizers"
 	"github.com/dadrus/heimdall/internal/rules/mechanisms/contextualizers"
@@ -25,120 +41,282 @@ import (
 	"github.com/dadrus/heimdall/internal/rules/mechanisms/finalizers"
 	"github.com/dadrus/heimdall/internal/rules/mechanisms/subject"
 	"github.com/dadrus/heimdall/internal/rules/rule"
+	"github.com/dadrus/heimdall/internal/x/errorchain"
 	"github.com/dadrus/heimdall/internal/zzverif/vf"
 )
+
+// ---- probes -------------------------------------------------------------------
+
+// the condition table (number -> CEL expression) and the probe methods; Run/Eval_C14.v
+// [holds] is the truth table of these expressions on these methods (checked by c14SelfCheck)
+var (
+	c14Conds   = []string{`Request.Method == "GET"`, `Request.Method == "POST"`, `Request.Method != "GET"`, `true == true`}
+	c14Methods = []string{"GET", "POST", "PUT"}
+	c14Holds   = [][]bool{{true, false, false}, {false, true, false}, {false, true, true}, {true, true, true}}
+)
+
+const (
+	c14FailNone = iota
+	c14FailAuthn
+	c14FailMid
+	c14FailFin
+)
+
+type c14T struct {
+	K   string `json:"k"`
+	ID  int    `json:"id"`
+	Cfg int    `json:"cfg"` // -1: created without override
+}
+
+type c14Probe struct {
+	fail int
+	log  []c14T
+}
+
+type c14ProbeKey struct{}
+
+func c14ProbeOf(ctx heimdall.Context) *c14Probe {
+	p, _ := ctx.AppContext().Value(c14ProbeKey{}).(*c14Probe)
+
+	return p
+}
+
+type c14Ctx struct {
+	req *heimdall.Request
+	app context.Context //nolint:containedctx
+}
+
+func (c *c14Ctx) Request() *heimdall.Request          { return c.req }
+func (c *c14Ctx) AddHeaderForUpstream(_, _ string)    {}
+func (c *c14Ctx) AddCookieForUpstream(_, _ string)    {}
+func (c *c14Ctx) AppContext() context.Context         { return c.app }
+func (c *c14Ctx) SetPipelineError(_ error)            {}
+func (c *c14Ctx) Outputs() map[string]any             { return map[string]any{} }
+
+type c14ReqFuncs struct{}
+
+func (c14ReqFuncs) Header(string) string       { return "" }
+func (c14ReqFuncs) Cookie(string) string       { return "" }
+func (c14ReqFuncs) Headers() map[string]string { return map[string]string{} }
+func (c14ReqFuncs) Body() any                  { return nil }
+
+func c14NewCtx(method, path string, p *c14Probe) *c14Ctx {
+	app := context.Background()
+	if p != nil {
+		app = context.WithValue(app, c14ProbeKey{}, p)
+	}
+
+	return &c14Ctx{
+		req: &heimdall.Request{
+			RequestFunctions: c14ReqFuncs{},
+			Method:           method,
+			URL:              &heimdall.URL{URL: url.URL{Scheme: "http", Host: "h.example.com", Path: path}},
+		},
+		app: app,
+	}
+}
 
 // ---- stub mechanisms ------------------------------------------------------
 
 type c14Mech struct {
 	kind string
 	id   int
+	cfg  int
 }
 
 func (m *c14Mech) ID() string                     { return fmt.Sprintf("%s%d", m.kind, m.id) }
 func (m *c14Mech) IsFallbackOnErrorAllowed() bool { return false }
 func (m *c14Mech) ContinueOnError() bool          { return false }
 
+func (m *c14Mech) hit(ctx heimdall.Context) *c14Probe {
+	p := c14ProbeOf(ctx)
+	if p != nil {
+		p.log = append(p.log, c14T{m.kind, m.id, m.cfg})
+	}
+
+	return p
+}
+
 type c14Authn struct{ c14Mech }
 
-func (m *c14Authn) Execute(heimdall.Context) (*subject.Subject, error) {
-	return &subject.Subject{ID: "x"}, nil
+func (m *c14Authn) Execute(ctx heimdall.Context) (*subject.Subject, error) {
+	if p := m.hit(ctx); p != nil && p.fail == c14FailAuthn {
+		return nil, errorchain.NewWithMessage(heimdall.ErrArgument, "probe: no credentials")
+	}
+
+	return &subject.Subject{ID: "x", Attributes: map[string]any{}}, nil
 }
 
 func (m *c14Authn) WithConfig(map[string]any) (authenticators.Authenticator, error) { return m, nil }
 
 type c14Authz struct{ c14Mech }
 
-func (m *c14Authz) Execute(heimdall.Context, *subject.Subject) error            { return nil }
+func (m *c14Authz) Execute(ctx heimdall.Context, _ *subject.Subject) error {
+	if p := m.hit(ctx); p != nil && p.fail == c14FailMid {
+		return errorchain.NewWithMessage(heimdall.ErrAuthorization, "probe")
+	}
+
+	return nil
+}
+
 func (m *c14Authz) WithConfig(map[string]any) (authorizers.Authorizer, error) { return m, nil }
 
-type c14Ctx struct{ c14Mech }
+type c14Ctxz struct{ c14Mech }
 
-func (m *c14Ctx) Execute(heimdall.Context, *subject.Subject) error { return nil }
-func (m *c14Ctx) WithConfig(map[string]any) (contextualizers.Contextualizer, error) {
-	return m, nil
+func (m *c14Ctxz) Execute(ctx heimdall.Context, _ *subject.Subject) error {
+	if p := m.hit(ctx); p != nil && p.fail == c14FailMid {
+		return errorchain.NewWithMessage(heimdall.ErrCommunication, "probe")
+	}
+
+	return nil
 }
+
+func (m *c14Ctxz) WithConfig(map[string]any) (contextualizers.Contextualizer, error) { return m, nil }
 
 type c14Fin struct{ c14Mech }
 
-func (m *c14Fin) Execute(heimdall.Context, *subject.Subject) error          { return nil }
+func (m *c14Fin) Execute(ctx heimdall.Context, _ *subject.Subject) error {
+	if p := m.hit(ctx); p != nil && p.fail == c14FailFin {
+		return errorchain.NewWithMessage(heimdall.ErrInternal, "probe")
+	}
+
+	return nil
+}
+
 func (m *c14Fin) WithConfig(map[string]any) (finalizers.Finalizer, error) { return m, nil }
 
 type c14Eh struct{ c14Mech }
 
-func (m *c14Eh) Execute(heimdall.Context, error) error                          { return nil }
+// when the authenticators are made to fail the error handlers decline, so that the composite
+// error handler walks through all of them
+func (m *c14Eh) Execute(ctx heimdall.Context, _ error) error {
+	if p := m.hit(ctx); p != nil && p.fail == c14FailAuthn {
+		return errErrorHandlerNotApplicable
+	}
+
+	return nil
+}
+
 func (m *c14Eh) WithConfig(map[string]any) (errorhandlers.ErrorHandler, error) { return m, nil }
 
-// ids are "<n>" (known) or "u<n>" (unknown to the catalogue)
+// the stub catalogue: ids "<n>" are known, anything else is not; an override carrying the key
+// "bad" is refused; the override marker is the number under "v" (0 if absent)
 type c14Factory struct{}
 
-var errC14Unknown = errors.New("no such mechanism")
+var (
+	errC14Unknown     = errors.New("no such mechanism")
+	errC14BadOverride = errors.New("bad override")
+)
 
 func c14ParseID(id string) (int, bool) {
-	known := true
-	if len(id) > 0 && id[0] == 'u' {
-		known = false
-		id = id[1:]
+	if len(id) == 0 || len(id) > 3 {
+		return 0, false
 	}
 
 	n := 0
-	fmt.Sscanf(id, "%d", &n)
 
-	return n, known
-}
+	for _, ch := range id {
+		if ch < '0' || ch > '9' {
+			return 0, false
+		}
 
-func (c14Factory) CreateAuthenticator(_, id string, _ config.MechanismConfig) (authenticators.Authenticator, error) {
-	n, ok := c14ParseID(id)
-	if !ok {
-		return nil, errC14Unknown
+		n = n*10 + int(ch-'0')
 	}
 
-	return &c14Authn{c14Mech{"authn", n}}, nil
+	return n, true
 }
 
-func (c14Factory) CreateAuthorizer(_, id string, _ config.MechanismConfig) (authorizers.Authorizer, error) {
-	n, ok := c14ParseID(id)
-	if !ok {
-		return nil, errC14Unknown
+func c14Marker(conf config.MechanismConfig) (int, error) {
+	if conf == nil {
+		return -1, nil
 	}
 
-	return &c14Authz{c14Mech{"authz", n}}, nil
+	if _, bad := conf["bad"]; bad {
+		return 0, errC14BadOverride
+	}
+
+	switch v := conf["v"].(type) {
+	case int:
+		return v, nil
+	case int64:
+		return int(v), nil
+	case uint64:
+		return int(v), nil
+	case float64:
+		return int(v), nil
+	}
+
+	return 0, nil
 }
 
-func (c14Factory) CreateContextualizer(_, id string, _ config.MechanismConfig) (contextualizers.Contextualizer, error) {
+func c14Stub(kind, id string, conf config.MechanismConfig) (c14Mech, error) {
 	n, ok := c14ParseID(id)
 	if !ok {
-		return nil, errC14Unknown
+		return c14Mech{}, errC14Unknown
 	}
 
-	return &c14Ctx{c14Mech{"ctx", n}}, nil
+	cfg, err := c14Marker(conf)
+	if err != nil {
+		return c14Mech{}, err
+	}
+
+	return c14Mech{kind, n, cfg}, nil
 }
 
-func (c14Factory) CreateFinalizer(_, id string, _ config.MechanismConfig) (finalizers.Finalizer, error) {
-	n, ok := c14ParseID(id)
-	if !ok {
-		return nil, errC14Unknown
+func (c14Factory) CreateAuthenticator(_, id string, conf config.MechanismConfig) (authenticators.Authenticator, error) {
+	m, err := c14Stub("KAuthn", id, conf)
+	if err != nil {
+		return nil, err
 	}
 
-	return &c14Fin{c14Mech{"fin", n}}, nil
+	return &c14Authn{m}, nil
 }
 
-func (c14Factory) CreateErrorHandler(_, id string, _ config.MechanismConfig) (errorhandlers.ErrorHandler, error) {
-	n, ok := c14ParseID(id)
-	if !ok {
-		return nil, errC14Unknown
+func (c14Factory) CreateAuthorizer(_, id string, conf config.MechanismConfig) (authorizers.Authorizer, error) {
+	m, err := c14Stub("KAuthz", id, conf)
+	if err != nil {
+		return nil, err
 	}
 
-	return &c14Eh{c14Mech{"eh", n}}, nil
+	return &c14Authz{m}, nil
+}
+
+func (c14Factory) CreateContextualizer(_, id string, conf config.MechanismConfig) (contextualizers.Contextualizer, error) {
+	m, err := c14Stub("KCtx", id, conf)
+	if err != nil {
+		return nil, err
+	}
+
+	return &c14Ctxz{m}, nil
+}
+
+func (c14Factory) CreateFinalizer(_, id string, conf config.MechanismConfig) (finalizers.Finalizer, error) {
+	m, err := c14Stub("KFin", id, conf)
+	if err != nil {
+		return nil, err
+	}
+
+	return &c14Fin{m}, nil
+}
+
+func (c14Factory) CreateErrorHandler(_, id string, conf config.MechanismConfig) (errorhandlers.ErrorHandler, error) {
+	m, err := c14Stub("KEh", id, conf)
+	if err != nil {
+		return nil, err
+	}
+
+	return &c14Eh{m}, nil
 }
 
 // ---- generated inputs --------------------------------------------------------
 
 type c14Key struct {
 	Present bool `json:"present"`
-	NotStr  bool `json:"not_str,omitempty"`
+	NotStr  int  `json:"not_str,omitempty"` // 0: a string; 1..4: 42, true, [1], {a: b}
 	ID      int  `json:"id"`
 	Known   bool `json:"known"`
+	// realfactory stream only: the id of a mechanism of another kind
+	WrongKind bool `json:"wrong_kind,omitempty"`
 }
 
 type c14Step struct {
@@ -147,14 +325,27 @@ type c14Step struct {
 	Ctx   c14Key `json:"ctx"`
 	Fin   c14Key `json:"fin"`
 	Eh    c14Key `json:"eh"`
-	If    string `json:"if"`  // nil ok empty notstr badcel
-	Cfg   string `json:"cfg"` // nil map bad
+	If    string `json:"if"`  // nil c0..c3 empty notstr badcel
+	Cfg   string `json:"cfg"` // nil m0 m1 m2 badovr scalar list   (realfactory: nil empty good unknown badtype scalar)
 }
 
 type c14Default struct {
 	Exec []c14Step `json:"exec"`
 	Eh   []c14Step `json:"eh"`
 	Bt   bool      `json:"bt"`
+	Via  string    `json:"via,omitempty"` // struct | yaml (through config.NewConfiguration)
+}
+
+// dimensions the pipeline must not depend on
+type c14Extra struct {
+	SrcID       string `json:"src_id"`
+	Version     string `json:"version,omitempty"`
+	Slashes     string `json:"slashes,omitempty"`
+	Hosts       int    `json:"hosts,omitempty"`
+	Methods     bool   `json:"methods,omitempty"`
+	Scheme      bool   `json:"scheme,omitempty"`
+	ExtraRoutes int    `json:"extra_routes,omitempty"`
+	Rewrite     bool   `json:"rewrite,omitempty"`
 }
 
 type c14Rule struct {
@@ -163,6 +354,7 @@ type c14Rule struct {
 	Bt      *bool     `json:"bt"`
 	Backend bool      `json:"backend"`
 	BadMeth bool      `json:"bad_methods"`
+	Extra   c14Extra  `json:"extra"`
 }
 
 type c14Case struct {
@@ -174,15 +366,20 @@ type c14Case struct {
 func c14GenKey(r *vf.Rand, present bool, bad int) c14Key {
 	k := c14Key{Present: present, ID: r.Intn(6), Known: true}
 	if present && r.Intn(100) < bad {
-		if r.Intn(4) == 0 {
-			k.NotStr = true
-		} else {
+		switch r.Intn(5) {
+		case 0:
+			k.NotStr = 1 + r.Intn(4)
+		case 1:
+			k.Known, k.WrongKind = false, true
+		default:
 			k.Known = false
 		}
 	}
 
 	return k
 }
+
+func (s c14Step) keys() []c14Key { return []c14Key{s.Authn, s.Authz, s.Ctx, s.Fin} }
 
 // kind: 0 authn 1 authz 2 ctx 3 fin 4 eh 5 none
 func c14GenStep(r *vf.Rand, kind int, bad int) c14Step {
@@ -193,7 +390,7 @@ func c14GenStep(r *vf.Rand, kind int, bad int) c14Step {
 	s.Fin = c14GenKey(r, kind == 3, bad)
 	s.Eh = c14GenKey(r, kind == 4, bad)
 
-	if kind < 4 && r.Intn(100) < bad { // a second kind key in the same map
+	if kind < 4 && r.Intn(100) < bad/2 { // a second kind key in the same map (outside the statement)
 		switch r.Intn(4) {
 		case 0:
 			s.Authn = c14GenKey(r, true, bad)
@@ -206,33 +403,38 @@ func c14GenStep(r *vf.Rand, kind int, bad int) c14Step {
 		}
 	}
 
+	// an `if` on an authenticator step is outside the statement: rare
+	condShare := 45
+	if kind == 0 {
+		condShare = bad / 3
+	}
+
 	switch x := r.Intn(100); {
-	case x < 25:
-		s.If = "ok"
-	case x < 25+bad/2:
+	case x < condShare:
+		s.If = fmt.Sprintf("c%d", r.Intn(len(c14Conds)))
+	case x < condShare+bad/2:
 		s.If = vf.Pick(r, []string{"empty", "notstr", "badcel"})
 	}
 
 	switch x := r.Intn(100); {
-	case x < 25:
-		s.Cfg = "map"
-	case x < 25+bad/3:
-		s.Cfg = "bad"
+	case x < 40:
+		s.Cfg = vf.Pick(r, []string{"m0", "m1", "m2", "m1", "m2"})
+	case x < 40+bad/2:
+		s.Cfg = vf.Pick(r, []string{"badovr", "badovr", "scalar", "list"})
 	}
 
 	return s
 }
 
-// ordered = true generates authn* mid* fin*; otherwise a random permutation
-func c14GenExec(r *vf.Rand, bad int, maxLen int) []c14Step {
+func c14GenExec(r *vf.Rand, bad int, maxLen int, orderedShare int) []c14Step {
 	var kinds []int
 
-	if r.Intn(100) < 70 {
+	if r.Intn(100) < orderedShare {
 		for i, n := 0, r.Intn(3); i < n; i++ {
 			kinds = append(kinds, 0)
 		}
 
-		for i, n := 0, r.Intn(3); i < n; i++ {
+		for i, n := 0, r.Intn(4); i < n; i++ {
 			kinds = append(kinds, 1+r.Intn(2))
 		}
 
@@ -261,7 +463,7 @@ func c14GenExec(r *vf.Rand, bad int, maxLen int) []c14Step {
 func c14GenEh(r *vf.Rand, bad int) []c14Step {
 	var steps []c14Step
 
-	for i, n := 0, r.Intn(3); i < n; i++ {
+	for i, n := 0, r.Intn(4); i < n; i++ {
 		k := 4
 		if r.Intn(100) < bad/2 {
 			k = 5
@@ -273,22 +475,53 @@ func c14GenEh(r *vf.Rand, bad int) []c14Step {
 	return steps
 }
 
+func c14GenExtra(r *vf.Rand) c14Extra {
+	e := c14Extra{
+		SrcID:   vf.Pick(r, []string{"src", "src", "kubernetes:ns/rs", "file_system:/etc/rules.yaml", "http_endpoint:https://x/y", ""}),
+		Version: vf.Pick(r, []string{"1alpha4", "1alpha4", "1alpha4", "1alpha3", "1beta1", ""}),
+		Slashes: vf.Pick(r, []string{"", "", "off", "on", "no_decode"}),
+	}
+
+	if r.Intn(3) == 0 {
+		e.Hosts = 1 + r.Intn(2)
+	}
+
+	e.Methods = r.Intn(3) == 0
+	e.Scheme = r.Intn(4) == 0
+	e.Rewrite = r.Intn(4) == 0
+
+	if r.Intn(3) == 0 {
+		e.ExtraRoutes = 1 + r.Intn(2)
+	}
+
+	return e
+}
+
 func c14Gen(r *vf.Rand) c14Case {
 	bad := vf.Pick(r, []int{0, 0, 6, 15, 40})
 	c := c14Case{Proxy: r.Intn(3) == 0}
 
 	if r.Intn(100) < 65 {
-		dbad := bad / 3
-		d := &c14Default{Exec: c14GenExec(r, dbad, 5), Eh: c14GenEh(r, dbad), Bt: r.Bool()}
+		// the default rule is mostly well formed (a failing one prevents start-up and tells nothing about rules)
+		dbad, ordered := 0, 97
+		if r.Intn(100) < 12 {
+			dbad, ordered = bad/2+3, 60
+		}
 
-		if len(d.Exec) == 0 || (d.Exec[0].Authn.Present == false && r.Intn(100) < 90) {
+		d := &c14Default{Exec: c14GenExec(r, dbad, 5, ordered), Eh: c14GenEh(r, dbad), Bt: r.Bool(), Via: "struct"}
+
+		if len(d.Exec) == 0 || (!d.Exec[0].Authn.Present && r.Intn(100) < 95) {
 			d.Exec = append([]c14Step{c14GenStep(r, 0, 0)}, d.Exec...)
+		}
+
+		if r.Bool() {
+			d.Via = "yaml"
 		}
 
 		c.Def = d
 	}
 
-	c.Rule.Exec = c14GenExec(r, bad, 6)
+	c.Rule.Exec = c14GenExec(r, bad, 6, 70)
 	c.Rule.Eh = c14GenEh(r, bad)
 
 	if r.Intn(100) < 55 {
@@ -298,245 +531,616 @@ func c14Gen(r *vf.Rand) c14Case {
 
 	c.Rule.Backend = !c.Proxy && r.Intn(4) == 0 || c.Proxy && r.Intn(100) < 85
 	c.Rule.BadMeth = r.Intn(100) < bad/4
+	c.Rule.Extra = c14GenExtra(r)
 
 	return c
+}
+
+// ---- what the generator knows about its own cases (non-triviality, tags) ------------------------
+
+func c14KeyOK(k c14Key, cfg string) bool { return k.NotStr == 0 && k.Known && cfg != "badovr" && cfg != "scalar" && cfg != "list" }
+
+func c14IfOK(s string) bool { return s == "nil" || (len(s) == 2 && s[0] == 'c') }
+
+// the step names exactly one known mechanism with a valid override and condition
+func c14StepWellFormed(s c14Step, eh bool) bool {
+	if eh {
+		return s.Eh.Present && c14KeyOK(s.Eh, s.Cfg) && c14IfOK(s.If)
+	}
+
+	n := 0
+
+	for _, k := range s.keys() {
+		if k.Present {
+			n++
+
+			if !c14KeyOK(k, s.Cfg) {
+				return false
+			}
+		}
+	}
+
+	return n == 1 && c14IfOK(s.If) && !(s.Authn.Present && s.If != "nil")
+}
+
+func c14StepScoped(s c14Step) bool {
+	n := 0
+
+	for _, k := range s.keys() {
+		if k.Present {
+			n++
+		}
+	}
+
+	return n <= 1 && !(s.Authn.Present && s.If != "nil")
+}
+
+func c14AllWellFormed(exec, eh []c14Step) bool {
+	for _, s := range exec {
+		if !c14StepWellFormed(s, false) {
+			return false
+		}
+	}
+
+	for _, s := range eh {
+		if !c14StepWellFormed(s, true) {
+			return false
+		}
+	}
+
+	return true
+}
+
+func c14Scoped(c c14Case) bool {
+	for _, s := range c.Rule.Exec {
+		if !c14StepScoped(s) {
+			return false
+		}
+	}
+
+	if c.Def != nil {
+		for _, s := range c.Def.Exec {
+			if !c14StepScoped(s) {
+				return false
+			}
+		}
+	}
+
+	return true
+}
+
+func c14Stages(exec []c14Step) (a, h, f int) {
+	for _, s := range exec {
+		switch {
+		case s.Authn.Present:
+			a++
+		case s.Authz.Present, s.Ctx.Present:
+			h++
+		case s.Fin.Present:
+			f++
+		}
+	}
+
+	return a, h, f
+}
+
+// Non-trivial: (1) a loaded rule that takes over at least one NON-EMPTY stage of the default rule
+// (its own stage is empty, the default rule's is not); (2) a rejected definition inside the scope of
+// the statement all of whose steps are individually well formed, so that the rejection is due to the
+// order, the missing authenticator or the missing forward_to.
+func c14Nontrivial(c c14Case, loaded, rejected bool) bool {
+	if !c14Scoped(c) {
+		return false
+	}
+
+	if loaded && c.Def != nil {
+		a, h, f := c14Stages(c.Rule.Exec)
+		da, dh, df := c14Stages(c.Def.Exec)
+
+		return (a == 0 && da > 0) || (h == 0 && dh > 0) || (f == 0 && df > 0) || (len(c.Rule.Eh) == 0 && len(c.Def.Eh) > 0)
+	}
+
+	return rejected && len(c.Rule.Exec) >= 1 && c14AllWellFormed(c.Rule.Exec, c.Rule.Eh) && !c.Rule.BadMeth
+}
+
+func c14Tags(c c14Case, status string) []string {
+	tags := []string{"status:" + status, fmt.Sprintf("scoped:%v", c14Scoped(c)), fmt.Sprintf("proxy:%v", c.Proxy)}
+
+	if c.Def == nil {
+		tags = append(tags, "default:none")
+	} else {
+		_, dh, df := c14Stages(c.Def.Exec)
+		shape := "partial"
+
+		if dh > 0 && df > 0 && len(c.Def.Eh) > 0 {
+			shape = "complete"
+		}
+
+		tags = append(tags, "default:"+shape, "default-via:"+c.Def.Via)
+	}
+
+	a, h, f := c14Stages(c.Rule.Exec)
+	b2 := func(n int) int {
+		if n > 0 {
+			return 1
+		}
+
+		return 0
+	}
+	tags = append(tags, fmt.Sprintf("own-stages:a%dh%df%de%d", b2(a), b2(h), b2(f), b2(len(c.Rule.Eh))))
+
+	switch {
+	case c.Rule.Bt == nil:
+		tags = append(tags, "bt:unset")
+	case *c.Rule.Bt:
+		tags = append(tags, "bt:on")
+	default:
+		tags = append(tags, "bt:off")
+	}
+
+	conds, ovr := 0, 0
+
+	for _, s := range append(append([]c14Step{}, c.Rule.Exec...), c.Rule.Eh...) {
+		if len(s.If) == 2 && s.If[0] == 'c' {
+			conds++
+		}
+
+		if len(s.Cfg) == 2 && s.Cfg[0] == 'm' {
+			ovr++
+		}
+	}
+
+	tags = append(tags, fmt.Sprintf("conditional-steps:%d", min(conds, 3)), fmt.Sprintf("overridden-steps:%d", min(ovr, 3)))
+
+	return tags
 }
 
 // ---- to heimdall configuration -------------------------------------------------
 
 func c14KeyVal(k c14Key) any {
-	if k.NotStr {
+	switch k.NotStr {
+	case 1:
 		return 42
+	case 2:
+		return true
+	case 3:
+		return []any{1}
+	case 4:
+		return map[string]any{"a": "b"}
 	}
 
 	if k.Known {
 		return fmt.Sprintf("%d", k.ID)
 	}
 
+	if k.WrongKind {
+		return ""
+	}
+
 	return fmt.Sprintf("u%d", k.ID)
 }
 
-func c14StepMap(s c14Step) config.MechanismConfig {
-	m := config.MechanismConfig{}
-
-	if s.Authn.Present {
-		m["authenticator"] = c14KeyVal(s.Authn)
-	}
-
-	if s.Authz.Present {
-		m["authorizer"] = c14KeyVal(s.Authz)
-	}
-
-	if s.Ctx.Present {
-		m["contextualizer"] = c14KeyVal(s.Ctx)
-	}
-
-	if s.Fin.Present {
-		m["finalizer"] = c14KeyVal(s.Fin)
-	}
-
-	if s.Eh.Present {
-		m["error_handler"] = c14KeyVal(s.Eh)
-	}
-
-	switch s.If {
-	case "ok":
-		m["if"] = "true == true"
+func c14IfVal(s string) (any, bool) {
+	switch s {
+	case "nil":
+		return nil, false
 	case "empty":
-		m["if"] = ""
+		return "", true
 	case "notstr":
-		m["if"] = 17
+		return 17, true
 	case "badcel":
-		m["if"] = "foo("
+		return "foo(", true
 	}
 
-	switch s.Cfg {
-	case "map":
-		m["config"] = map[string]any{"a": "b"}
-	case "bad":
-		m["config"] = "scalar"
-	}
-
-	return m
+	return c14Conds[int(s[1]-'0')], true
 }
 
-func c14Steps(ss []c14Step) []config.MechanismConfig {
-	var out []config.MechanismConfig
-	for _, s := range ss {
-		out = append(out, c14StepMap(s))
+func c14CfgVal(s string) (any, bool) {
+	switch s {
+	case "m0":
+		return map[string]any{}, true
+	case "m1":
+		return map[string]any{"v": 1}, true
+	case "m2":
+		return map[string]any{"v": 2, "w": "x"}, true
+	case "badovr":
+		return map[string]any{"bad": true}, true
+	case "scalar":
+		return "scalar", true
+	case "list":
+		return []any{1, 2}, true
+	}
+
+	return nil, false
+}
+
+type c14KV struct {
+	k string
+	v any
+}
+
+// the entries of a step map in a fixed order (also the order of the YAML rendering)
+func c14StepEntries(s c14Step, keyVal func(c14Key, string) any, cfgVal func(c14Step) (any, bool)) []c14KV {
+	var out []c14KV
+
+	for _, e := range []struct {
+		name string
+		k    c14Key
+	}{{"authenticator", s.Authn}, {"authorizer", s.Authz}, {"contextualizer", s.Ctx}, {"finalizer", s.Fin}, {"error_handler", s.Eh}} {
+		if e.k.Present {
+			out = append(out, c14KV{e.name, keyVal(e.k, e.name)})
+		}
+	}
+
+	if v, ok := c14IfVal(s.If); ok {
+		out = append(out, c14KV{"if", v})
+	}
+
+	if v, ok := cfgVal(s); ok {
+		out = append(out, c14KV{"config", v})
 	}
 
 	return out
 }
 
+func c14StubEntries(s c14Step) []c14KV {
+	return c14StepEntries(s, func(k c14Key, _ string) any { return c14KeyVal(k) },
+		func(s c14Step) (any, bool) { return c14CfgVal(s.Cfg) })
+}
+
+func c14Steps(ss []c14Step, entries func(c14Step) []c14KV) []config.MechanismConfig {
+	var out []config.MechanismConfig
+
+	for _, s := range ss {
+		m := config.MechanismConfig{}
+		for _, e := range entries(s) {
+			m[e.k] = e.v
+		}
+
+		out = append(out, m)
+	}
+
+	return out
+}
+
+// ---- YAML rendering (flow style values) ---------------------------------------------------------
+
+func c14YamlVal(v any) string {
+	switch x := v.(type) {
+	case int:
+		return fmt.Sprintf("%d", x)
+	case bool:
+		return fmt.Sprintf("%v", x)
+	case string:
+		return fmt.Sprintf("%q", x)
+	case []any:
+		parts := make([]string, len(x))
+		for i, e := range x {
+			parts[i] = c14YamlVal(e)
+		}
+
+		return "[" + strings.Join(parts, ", ") + "]"
+	case map[string]any:
+		keys := make([]string, 0, len(x))
+		for k := range x {
+			keys = append(keys, k)
+		}
+
+		// sorted: the rendering must not depend on map iteration order
+		for i := range keys {
+			for j := i + 1; j < len(keys); j++ {
+				if keys[j] < keys[i] {
+					keys[i], keys[j] = keys[j], keys[i]
+				}
+			}
+		}
+
+		parts := make([]string, len(keys))
+		for i, k := range keys {
+			parts[i] = k + ": " + c14YamlVal(x[k])
+		}
+
+		return "{" + strings.Join(parts, ", ") + "}"
+	}
+
+	return "null"
+}
+
+func c14YamlSteps(sb *strings.Builder, indent, key string, steps []c14Step, entries func(c14Step) []c14KV) {
+	if len(steps) == 0 {
+		return
+	}
+
+	sb.WriteString(indent + key + ":\n")
+
+	for _, s := range steps {
+		es := entries(s)
+		if len(es) == 0 {
+			sb.WriteString(indent + "  - {}\n")
+
+			continue
+		}
+
+		for i, e := range es {
+			if i == 0 {
+				sb.WriteString(indent + "  - ")
+			} else {
+				sb.WriteString(indent + "    ")
+			}
+
+			sb.WriteString(e.k + ": " + c14YamlVal(e.v) + "\n")
+		}
+	}
+}
+
+// ---- the default rule: struct literal or YAML through the real configuration loader -------------
+
+func c14DefaultYaml(d *c14Default, entries func(c14Step) []c14KV) string {
+	var sb strings.Builder
+
+	sb.WriteString("default_rule:\n")
+	sb.WriteString(fmt.Sprintf("  backtracking_enabled: %v\n", d.Bt))
+	c14YamlSteps(&sb, "  ", "execute", d.Exec, entries)
+	c14YamlSteps(&sb, "  ", "on_error", d.Eh, entries)
+
+	return sb.String()
+}
+
+var c14TmpDir string //nolint:gochecknoglobals
+
+func c14DefaultConf(t *testing.T, d *c14Default, entries func(c14Step) []c14KV) *config.DefaultRule {
+	t.Helper()
+
+	if d == nil {
+		return nil
+	}
+
+	literal := &config.DefaultRule{
+		BacktrackingEnabled: d.Bt,
+		Execute:             c14Steps(d.Exec, entries),
+		ErrorHandler:        c14Steps(d.Eh, entries),
+	}
+
+	if d.Via != "yaml" {
+		return literal
+	}
+
+	if c14TmpDir == "" {
+		c14TmpDir = t.TempDir()
+	}
+
+	path := filepath.Join(c14TmpDir, "heimdall.yaml")
+	if err := os.WriteFile(path, []byte(c14DefaultYaml(d, entries)), 0o600); err != nil {
+		t.Fatalf("driver error: %v", err)
+	}
+
+	conf, err := config.NewConfiguration("ZZVERIFC14NOENV_", config.ConfigurationPath(path))
+	if err != nil {
+		// the configuration schema is stricter than the factory (e.g. it refuses two equal steps): not this
+		// property's business; such a default rule reaches the factory as a literal
+		d.Via = "struct-loader-refused"
+
+		return literal
+	}
+
+	if conf.Default == nil {
+		// the loader lost the default rule altogether: hand over what it delivered (nothing)
+		return nil
+	}
+
+	return conf.Default
+}
+
 // ---- observation ---------------------------------------------------------------
 
-type c14Mo struct {
-	Kind string `json:"k"`
-	ID   int    `json:"id"`
-	Cond bool   `json:"cond"`
+type c14Run struct {
+	Err   bool   `json:"err"`
+	Trace []c14T `json:"trace"`
+}
+
+type c14RObs struct {
+	Runs []c14Run `json:"runs"`
+	Bt   bool     `json:"bt"`
 }
 
 type c14Obs struct {
-	Status string  `json:"status"` // factory_failed factory_panic rejected panic ok
-	Sc     []c14Mo `json:"sc,omitempty"`
-	Sh     []c14Mo `json:"sh,omitempty"`
-	Fi     []c14Mo `json:"fi,omitempty"`
-	Eh     []c14Mo `json:"eh,omitempty"`
-	Bt     bool    `json:"bt"`
-	Err    string  `json:"err,omitempty"`
+	Status string   `json:"status"` // factory_failed factory_panic rejected panic ok
+	Rule   *c14RObs `json:"rule,omitempty"`
+	Err    string   `json:"err,omitempty"`
+	Class  string   `json:"class,omitempty"` // error class of a rejection (histogram only)
 }
 
-func c14MechOf(v any) (string, int) {
-	switch m := v.(type) {
-	case *c14Authn:
-		return "KAuthn", m.id
-	case *c14Authz:
-		return "KAuthz", m.id
-	case *c14Ctx:
-		return "KCtx", m.id
-	case *c14Fin:
-		return "KFin", m.id
-	case *c14Eh:
-		return "KEh", m.id
+// Execute for the 12 probes, in the order of Model.probes
+func c14Runs(rul rule.Rule, path string) []c14Run {
+	var runs []c14Run
+
+	for _, fail := range []int{c14FailNone, c14FailAuthn, c14FailMid, c14FailFin} {
+		for _, meth := range c14Methods {
+			p := &c14Probe{fail: fail}
+			_, err := rul.Execute(c14NewCtx(meth, path, p))
+			runs = append(runs, c14Run{Err: err != nil, Trace: p.log})
+		}
 	}
 
-	return "?", -1
+	return runs
 }
 
-func c14IsCel(c executionCondition) bool {
-	_, ok := c.(*celExecutionCondition)
-
-	return ok
+func c14ObserveRule(rul rule.Rule, path string) *c14RObs {
+	return &c14RObs{Runs: c14Runs(rul, path), Bt: rul.AllowsBacktracking()}
 }
 
-func c14Observe(rul *ruleImpl) c14Obs {
-	o := c14Obs{Status: "ok", Bt: rul.allowsBacktracking}
-
-	for _, a := range rul.sc {
-		k, id := c14MechOf(a)
-		o.Sc = append(o.Sc, c14Mo{k, id, false})
+func c14ErrClass(err error) string {
+	switch {
+	case errors.Is(err, heimdall.ErrConfiguration):
+		return "configuration"
+	case errors.Is(err, heimdall.ErrInternal):
+		return "internal"
+	case errors.Is(err, errC14Unknown), errors.Is(err, errC14BadOverride):
+		return "mechanism-factory"
 	}
 
-	for _, h := range rul.sh {
-		ch := h.(*conditionalSubjectHandler) //nolint:forcetypeassert
-		k, id := c14MechOf(ch.h)
-		o.Sh = append(o.Sh, c14Mo{k, id, c14IsCel(ch.c)})
+	return "other"
+}
+
+func c14Mode(proxy bool) config.OperationMode {
+	if proxy {
+		return config.ProxyMode
 	}
 
-	for _, h := range rul.fi {
-		ch := h.(*conditionalSubjectHandler) //nolint:forcetypeassert
-		k, id := c14MechOf(ch.h)
-		o.Fi = append(o.Fi, c14Mo{k, id, c14IsCel(ch.c)})
+	return config.DecisionMode
+}
+
+// NewRuleFactory under recover; status "" = created
+func c14NewFactory(hf mechanisms.MechanismFactory, def *config.DefaultRule, proxy bool) (f rule.Factory, status, msg string) {
+	defer func() {
+		if p := recover(); p != nil {
+			f, status, msg = nil, "factory_panic", fmt.Sprint(p)
+		}
+	}()
+
+	rf, err := NewRuleFactory(hf, &config.Configuration{Default: def}, c14Mode(proxy), zerolog.Nop())
+	if err != nil {
+		return nil, "factory_failed", err.Error()
 	}
 
-	for _, h := range rul.eh {
-		ch := h.(*conditionalErrorHandler) //nolint:forcetypeassert
-		k, id := c14MechOf(ch.h)
-		o.Eh = append(o.Eh, c14Mo{k, id, c14IsCel(ch.c)})
+	return rf, "", ""
+}
+
+func c14RuleConfig(r c14Rule, id, path string, entries func(c14Step) []c14KV) config2.Rule {
+	rc := config2.Rule{
+		ID:                     id,
+		EncodedSlashesHandling: config2.EncodedSlashesHandling(r.Extra.Slashes),
+		Matcher:                config2.Matcher{Routes: []config2.Route{{Path: path}}, BacktrackingEnabled: r.Bt},
+		Execute:                c14Steps(r.Exec, entries),
+		ErrorHandler:           c14Steps(r.Eh, entries),
+	}
+
+	for i := 0; i < r.Extra.ExtraRoutes; i++ {
+		rc.Matcher.Routes = append(rc.Matcher.Routes, config2.Route{
+			Path:       fmt.Sprintf("/x%s/%d/:id", path, i),
+			PathParams: []config2.ParameterMatcher{{Name: "id", Type: "glob", Value: "[0-9]*"}},
+		})
+	}
+
+	switch r.Extra.Hosts {
+	case 1:
+		rc.Matcher.Hosts = []config2.HostMatcher{{Type: "exact", Value: "h.example.com"}}
+	case 2:
+		rc.Matcher.Hosts = []config2.HostMatcher{{Type: "glob", Value: "*.example.com"}, {Type: "exact", Value: "other"}}
+	}
+
+	if r.Extra.Methods {
+		rc.Matcher.Methods = []string{"GET", "POST", "PUT", "DELETE"}
+	}
+
+	if r.Extra.Scheme {
+		rc.Matcher.Scheme = "http"
+	}
+
+	if r.BadMeth {
+		rc.Matcher.Methods = []string{""}
+	}
+
+	if r.Backend {
+		rc.Backend = &config2.Backend{Host: "up.example.com"}
+		if r.Extra.Rewrite {
+			rc.Backend.URLRewriter = &config2.URLRewriter{Scheme: "https"}
+		}
+	}
+
+	return rc
+}
+
+// CreateRule under recover; the observation is taken OUTSIDE the recover scope, so that a panic of
+// the driver's own code is a failing driver and not an observation
+func c14Create(f rule.Factory, version, src string, rc config2.Rule) (rul rule.Rule, o c14Obs) {
+	func() {
+		defer func() {
+			if p := recover(); p != nil {
+				rul, o = nil, c14Obs{Status: "panic", Err: fmt.Sprint(p)}
+			}
+		}()
+
+		r, err := f.CreateRule(version, src, rc)
+		if err != nil {
+			o = c14Obs{Status: "rejected", Err: err.Error(), Class: c14ErrClass(err)}
+
+			return
+		}
+
+		rul, o = r, c14Obs{Status: "ok"}
+	}()
+
+	return rul, o
+}
+
+func c14RunCase(t *testing.T, c c14Case) c14Obs {
+	t.Helper()
+
+	f, status, msg := c14NewFactory(c14Factory{}, c14DefaultConf(t, c.Def, c14StubEntries), c.Proxy)
+	if f == nil {
+		return c14Obs{Status: status, Err: msg}
+	}
+
+	rul, o := c14Create(f, c.Rule.Extra.Version, c.Rule.Extra.SrcID, c14RuleConfig(c.Rule, "r", "/a", c14StubEntries))
+	if rul != nil {
+		o.Rule = c14ObserveRule(rul, "/a")
 	}
 
 	return o
 }
 
-func c14Run(c c14Case) (obs c14Obs) {
-	mode := config.DecisionMode
-	if c.Proxy {
-		mode = config.ProxyMode
-	}
-
-	conf := &config.Configuration{}
-	if c.Def != nil {
-		conf.Default = &config.DefaultRule{
-			BacktrackingEnabled: c.Def.Bt,
-			Execute:             c14Steps(c.Def.Exec),
-			ErrorHandler:        c14Steps(c.Def.Eh),
-		}
-	}
-
-	var factory *ruleFactory
-
-	func() {
-		defer func() {
-			if p := recover(); p != nil {
-				obs = c14Obs{Status: "factory_panic", Err: fmt.Sprint(p)}
-			}
-		}()
-
-		f, err := NewRuleFactory(c14Factory{}, conf, mode, zerolog.Nop())
-		if err != nil {
-			obs = c14Obs{Status: "factory_failed", Err: err.Error()}
-
-			return
-		}
-
-		factory = f.(*ruleFactory) //nolint:forcetypeassert
-	}()
-
-	if factory == nil {
-		return obs
-	}
-
-	rc := config2.Rule{
-		ID:           "r",
-		Matcher:      config2.Matcher{Routes: []config2.Route{{Path: "/a"}}, BacktrackingEnabled: c.Rule.Bt},
-		Execute:      c14Steps(c.Rule.Exec),
-		ErrorHandler: c14Steps(c.Rule.Eh),
-	}
-
-	if c.Rule.BadMeth {
-		rc.Matcher.Methods = []string{""}
-	}
-
-	if c.Rule.Backend {
-		rc.Backend = &config2.Backend{Host: "up.example.com"}
-	}
-
-	defer func() {
-		if p := recover(); p != nil {
-			obs = c14Obs{Status: "panic", Err: fmt.Sprint(p)}
-		}
-	}()
-
-	rul, err := factory.CreateRule("1alpha4", "src", rc)
-	if err != nil {
-		return c14Obs{Status: "rejected", Err: err.Error()}
-	}
-
-	return c14Observe(rul.(*ruleImpl)) //nolint:forcetypeassert
-}
-
 // ---- rendering for Coq -----------------------------------------------------------
 
-func c14CoqKey(k c14Key) string {
+func c14CoqKey(k c14Key, ok bool) string {
 	if !k.Present {
 		return "None"
 	}
 
-	id := vf.CoqOpt(!k.NotStr, vf.CoqNat(k.ID))
-
-	return "(Some (kv " + id + " " + vf.CoqBool(k.Known) + "))"
+	return "(Some (kv " + vf.CoqOpt(k.NotStr == 0, vf.CoqNat(k.ID)) + " " + vf.CoqBool(ok) + "))"
 }
 
 func c14CoqIf(s string) string {
-	return map[string]string{"nil": "CondNil", "ok": "CondOk", "empty": "CondEmpty", "notstr": "CondNotStr", "badcel": "CondBadCel"}[s]
+	if len(s) == 2 && s[0] == 'c' {
+		return "(CondOk " + vf.CoqNat(int(s[1]-'0')) + ")"
+	}
+
+	return map[string]string{"nil": "CondNil", "empty": "CondEmpty", "notstr": "CondNotStr", "badcel": "CondBadCel"}[s]
 }
 
 func c14CoqCfg(s string) string {
-	return map[string]string{"nil": "CfgNil", "map": "CfgMap", "bad": "CfgBad"}[s]
+	switch s {
+	case "nil":
+		return "CfgNil"
+	case "m0", "m1", "m2":
+		return "(CfgMap " + vf.CoqNat(int(s[1]-'0')) + ")"
+	case "badovr":
+		return "(CfgMap 0%nat)"
+	}
+
+	return "CfgBad"
 }
 
+// k_ok of the stub catalogue: the id is known and the override does not carry the key "bad"
+func c14StubOK(k c14Key, cfg string) bool { return k.Known && cfg != "badovr" }
+
 func c14CoqStep(s c14Step) string {
-	return vf.CoqApp("st", c14CoqKey(s.Authn), c14CoqKey(s.Authz), c14CoqKey(s.Ctx), c14CoqKey(s.Fin),
-		c14CoqIf(s.If), c14CoqCfg(s.Cfg))
+	return vf.CoqApp("st", c14CoqKey(s.Authn, c14StubOK(s.Authn, s.Cfg)), c14CoqKey(s.Authz, c14StubOK(s.Authz, s.Cfg)),
+		c14CoqKey(s.Ctx, c14StubOK(s.Ctx, s.Cfg)), c14CoqKey(s.Fin, c14StubOK(s.Fin, s.Cfg)), c14CoqIf(s.If), c14CoqCfg(s.Cfg))
 }
 
 func c14CoqEh(s c14Step) string {
-	return vf.CoqApp("eh", c14CoqKey(s.Eh), c14CoqIf(s.If), c14CoqCfg(s.Cfg))
+	return vf.CoqApp("eh", c14CoqKey(s.Eh, c14StubOK(s.Eh, s.Cfg)), c14CoqIf(s.If), c14CoqCfg(s.Cfg))
 }
 
-func c14CoqMo(m c14Mo) string {
-	return vf.CoqApp("mk", m.Kind, vf.CoqNat(m.ID), vf.CoqBool(m.Cond))
+func c14CoqT(e c14T) string {
+	return vf.CoqApp("t", e.K, vf.CoqNat(e.ID), vf.CoqOpt(e.Cfg >= 0, vf.CoqNat(e.Cfg)))
+}
+
+func c14CoqRun(r c14Run) string { return vf.CoqApp("rn", vf.CoqBool(r.Err), vf.CoqListOf(r.Trace, c14CoqT)) }
+
+func c14CoqRObs(o *c14RObs) string {
+	return vf.CoqApp("ro", vf.CoqListOf(o.Runs, c14CoqRun), vf.CoqBool(o.Bt))
 }
 
 func c14CoqObs(o c14Obs) string {
@@ -551,268 +1155,348 @@ func c14CoqObs(o c14Obs) string {
 		return "(Loaded Panic)"
 	}
 
-	return "(Loaded (Ok " + vf.CoqApp("eff", vf.CoqListOf(o.Sc, c14CoqMo), vf.CoqListOf(o.Sh, c14CoqMo),
-		vf.CoqListOf(o.Fi, c14CoqMo), vf.CoqListOf(o.Eh, c14CoqMo), vf.CoqBool(o.Bt)) + "))"
+	return "(Loaded (Ok " + c14CoqRObs(o.Rule) + "))"
 }
 
-func c14Coq(c c14Case, o c14Obs) string {
-	def := "None"
-	if c.Def != nil {
-		def = "(Some " + vf.CoqApp("dd", vf.CoqListOf(c.Def.Exec, c14CoqStep), vf.CoqListOf(c.Def.Eh, c14CoqEh),
-			vf.CoqBool(c.Def.Bt)) + ")"
+func c14CoqDefault(d *c14Default, step, eh func(c14Step) string) string {
+	if d == nil {
+		return "None"
 	}
 
-	bt := "None"
-	if c.Rule.Bt != nil {
-		bt = "(Some " + vf.CoqBool(*c.Rule.Bt) + ")"
-	}
-
-	rd := vf.CoqApp("rd", vf.CoqListOf(c.Rule.Exec, c14CoqStep), vf.CoqListOf(c.Rule.Eh, c14CoqEh), bt,
-		vf.CoqBool(c.Rule.Backend), vf.CoqBool(!c.Rule.BadMeth))
-
-	return vf.CoqApp("cs", vf.CoqBool(c.Proxy), def, rd, c14CoqObs(o))
+	return "(Some " + vf.CoqApp("dd", vf.CoqListOf(d.Exec, step), vf.CoqListOf(d.Eh, eh), vf.CoqBool(d.Bt)) + ")"
 }
 
-// a case is non-trivial when the rule is loaded and inherits at least one stage
-// from a default rule, or is rejected for an ordering reason
-func c14Nontrivial(c c14Case, o c14Obs) bool {
-	if o.Status == "ok" && c.Def != nil {
-		own := map[string]bool{}
-		for _, s := range c.Rule.Exec {
-			switch {
-			case s.Authn.Present:
-				own["a"] = true
-			case s.Authz.Present, s.Ctx.Present:
-				own["h"] = true
-			case s.Fin.Present:
-				own["f"] = true
-			}
-		}
-
-		return len(own) < 3 || len(c.Rule.Eh) == 0
-	}
-
-	return o.Status == "rejected" && len(c.Rule.Exec) >= 2
-}
-
-func c14Corpus() []c14Case {
-	tr := true
-	au := c14Step{Authn: c14Key{Present: true, ID: 1, Known: true}, If: "nil", Cfg: "nil"}
-	fi := c14Step{Fin: c14Key{Present: true, ID: 2, Known: true}, If: "ok", Cfg: "nil"}
-	az := c14Step{Authz: c14Key{Present: true, ID: 3, Known: true}, If: "nil", Cfg: "map"}
-
-	return []c14Case{
-		// C14-F1 witness: no default rule, rule asks for backtracking
-		{Rule: c14Rule{Exec: []c14Step{au}, Bt: &tr}},
-		// partial default, rule defines only a finalizer
-		{Def: &c14Default{Exec: []c14Step{au, az}, Bt: true}, Rule: c14Rule{Exec: []c14Step{fi}}},
-		// finalizer before authorizer
-		{Rule: c14Rule{Exec: []c14Step{au, fi, az}}},
-		// authenticator after authorizer
-		{Rule: c14Rule{Exec: []c14Step{az, au}}},
-		// proxy mode without forward_to
-		{Proxy: true, Rule: c14Rule{Exec: []c14Step{au}}},
-		// no authenticator anywhere
-		{Rule: c14Rule{Exec: []c14Step{az}}},
-	}
-}
-
-// ---- stream 2: YAML rule set -> real parser -> real processor -> real repository ----
-
-func c14YamlVal(v any) string {
-	switch x := v.(type) {
-	case int:
-		return fmt.Sprintf("%d", x)
-	case string:
-		return fmt.Sprintf("%q", x)
-	case map[string]any:
-		return "{ a: b }"
-	}
-
-	return "null"
-}
-
-func c14YamlSteps(sb *strings.Builder, key string, steps []c14Step) {
-	if len(steps) == 0 {
-		return
-	}
-
-	sb.WriteString("    " + key + ":\n")
-
-	for _, s := range steps {
-		m := c14StepMap(s)
-		first := true
-
-		for _, k := range []string{"authenticator", "authorizer", "contextualizer", "finalizer", "error_handler", "if", "config"} {
-			v, ok := m[k]
-			if !ok {
-				continue
-			}
-
-			if first {
-				sb.WriteString("      - ")
-				first = false
-			} else {
-				sb.WriteString("        ")
-			}
-
-			sb.WriteString(k + ": " + c14YamlVal(v) + "\n")
-		}
-
-		if first {
-			sb.WriteString("      - {}\n")
-		}
-	}
-}
-
-type c14SetCase struct {
-	Proxy bool        `json:"proxy"`
-	Def   *c14Default `json:"default"`
-	Rules []c14Rule   `json:"rules"`
-}
-
-func c14Yaml(c c14SetCase) string {
-	var sb strings.Builder
-
-	sb.WriteString("version: \"1alpha4\"\nname: test\nrules:\n")
-
-	for i, r := range c.Rules {
-		sb.WriteString(fmt.Sprintf("  - id: r%d\n    match:\n      routes:\n        - path: /p%d\n", i, i))
-
-		if r.Bt != nil {
-			sb.WriteString(fmt.Sprintf("      backtracking_enabled: %v\n", *r.Bt))
-		}
-
-		if r.BadMeth {
-			sb.WriteString("      methods: [ \"\" ]\n")
-		}
-
-		if r.Backend {
-			sb.WriteString("    forward_to:\n      host: up.example.com\n")
-		}
-
-		c14YamlSteps(&sb, "execute", r.Exec)
-		c14YamlSteps(&sb, "on_error", r.Eh)
-	}
-
-	return sb.String()
-}
-
-type c14SetObs struct {
-	Status string   `json:"status"`
-	Rules  []c14Obs `json:"rules,omitempty"`
-	Err    string   `json:"err,omitempty"`
-}
-
-func c14RunRuleSet(c c14SetCase) (obs c14SetObs) {
-	mode := config.DecisionMode
-	if c.Proxy {
-		mode = config.ProxyMode
-	}
-
-	conf := &config.Configuration{}
-	if c.Def != nil {
-		conf.Default = &config.DefaultRule{
-			BacktrackingEnabled: c.Def.Bt,
-			Execute:             c14Steps(c.Def.Exec),
-			ErrorHandler:        c14Steps(c.Def.Eh),
-		}
-	}
-
-	var factory rule.Factory
-
-	func() {
-		defer func() {
-			if p := recover(); p != nil {
-				obs = c14SetObs{Status: "factory_panic", Err: fmt.Sprint(p)}
-			}
-		}()
-
-		f, err := NewRuleFactory(c14Factory{}, conf, mode, zerolog.Nop())
-		if err != nil {
-			obs = c14SetObs{Status: "factory_failed", Err: err.Error()}
-
-			return
-		}
-
-		factory = f
-	}()
-
-	if factory == nil {
-		return obs
-	}
-
-	repo := newRepository(factory).(*repository) //nolint:forcetypeassert
-
-	defer func() {
-		if p := recover(); p != nil {
-			obs = c14SetObs{Status: "panic", Err: fmt.Sprint(p)}
-		}
-
-		// rejected as a whole: nothing of the set may have reached the repository
-		if obs.Status != "ok" && len(repo.knownRules) != 0 {
-			obs = c14SetObs{Status: "partially_loaded", Err: fmt.Sprintf("%d rules known after %s", len(repo.knownRules), obs.Status)}
-		}
-	}()
-
-	rs, err := config2.ParseRules("application/yaml", strings.NewReader(c14Yaml(c)), false)
-	if err != nil {
-		return c14SetObs{Status: "rejected", Err: "parse: " + err.Error()}
-	}
-
-	rs.Source = "src"
-
-	if err = NewRuleSetProcessor(repo, factory).OnCreated(rs); err != nil {
-		return c14SetObs{Status: "rejected", Err: err.Error()}
-	}
-
-	if len(repo.knownRules) != len(c.Rules) {
-		return c14SetObs{Status: "partially_loaded", Err: fmt.Sprintf("known rules: %d of %d", len(repo.knownRules), len(c.Rules))}
-	}
-
-	obs = c14SetObs{Status: "ok"}
-
-	for i := range c.Rules {
-		var found *ruleImpl
-
-		for _, kr := range repo.knownRules {
-			if kr.ID() == fmt.Sprintf("r%d", i) {
-				found = kr.(*ruleImpl) //nolint:forcetypeassert
-			}
-		}
-
-		if found == nil {
-			return c14SetObs{Status: "partially_loaded", Err: fmt.Sprintf("rule r%d missing", i)}
-		}
-
-		obs.Rules = append(obs.Rules, c14Observe(found))
-	}
-
-	return obs
-}
-
-func c14CoqRule(r c14Rule) string {
+func c14CoqRule(r c14Rule, step, eh func(c14Step) string) string {
 	bt := "None"
 	if r.Bt != nil {
 		bt = "(Some " + vf.CoqBool(*r.Bt) + ")"
 	}
 
-	return vf.CoqApp("rd", vf.CoqListOf(r.Exec, c14CoqStep), vf.CoqListOf(r.Eh, c14CoqEh), bt,
+	return vf.CoqApp("rd", vf.CoqListOf(r.Exec, step), vf.CoqListOf(r.Eh, eh), bt,
 		vf.CoqBool(r.Backend), vf.CoqBool(!r.BadMeth))
 }
 
-func c14CoqEff(o c14Obs) string {
-	return vf.CoqApp("eff", vf.CoqListOf(o.Sc, c14CoqMo), vf.CoqListOf(o.Sh, c14CoqMo),
-		vf.CoqListOf(o.Fi, c14CoqMo), vf.CoqListOf(o.Eh, c14CoqMo), vf.CoqBool(o.Bt))
+func c14Coq(c c14Case, o c14Obs) string {
+	return vf.CoqApp("cs", vf.CoqBool(c.Proxy), c14CoqDefault(c.Def, c14CoqStep, c14CoqEh),
+		c14CoqRule(c.Rule, c14CoqStep, c14CoqEh), c14CoqObs(o))
+}
+
+// ---- corpus ------------------------------------------------------------------------
+
+func c14Corpus() []c14Case {
+	tr := true
+	k := func(id int) c14Key { return c14Key{Present: true, ID: id, Known: true} }
+	au := c14Step{Authn: k(1), If: "nil", Cfg: "nil"}
+	au2 := c14Step{Authn: k(4), If: "nil", Cfg: "m1"}
+	fi := c14Step{Fin: k(2), If: "c0", Cfg: "nil"}
+	az := c14Step{Authz: k(3), If: "nil", Cfg: "m1"}
+	cx := c14Step{Ctx: k(5), If: "c2", Cfg: "m2"}
+	e1 := c14Step{Eh: k(1), If: "c1", Cfg: "nil"}
+	e2 := c14Step{Eh: k(2), If: "nil", Cfg: "m2"}
+	ex := c14Extra{SrcID: "src", Version: "1alpha4"}
+	rl := func(r c14Rule) c14Rule { r.Extra = ex; return r }
+	full := &c14Default{Exec: []c14Step{au, az, cx, fi}, Eh: []c14Step{e1, e2}, Bt: true, Via: "struct"}
+	fullY := &c14Default{Exec: []c14Step{au, az, cx, fi}, Eh: []c14Step{e1, e2}, Bt: true, Via: "yaml"}
+
+	return []c14Case{
+		// C14-F1 witness (fixed by 97aaffa): no default rule, rule asks for backtracking
+		{Rule: rl(c14Rule{Exec: []c14Step{au}, Bt: &tr})},
+		// partial default, rule defines only a finalizer
+		{Def: &c14Default{Exec: []c14Step{au, az}, Bt: true, Via: "struct"}, Rule: rl(c14Rule{Exec: []c14Step{fi}})},
+		// finalizer before authorizer
+		{Rule: rl(c14Rule{Exec: []c14Step{au, fi, az}})},
+		// authenticator after authorizer
+		{Rule: rl(c14Rule{Exec: []c14Step{az, au}})},
+		// proxy mode without forward_to
+		{Proxy: true, Rule: rl(c14Rule{Exec: []c14Step{au}})},
+		// no authenticator anywhere
+		{Rule: rl(c14Rule{Exec: []c14Step{az}})},
+		// complete default rule (from YAML, backtracking on): a rule defining nothing but on_error
+		{Def: fullY, Rule: rl(c14Rule{Eh: []c14Step{e2}})},
+		// seeded C14-1: rule with all three execute stages and no on_error inherits the error handlers
+		{Def: full, Rule: rl(c14Rule{Exec: []c14Step{au2, cx, fi}})},
+		// seeded C14-2: authorizer before contextualizer stays before it
+		{Def: full, Rule: rl(c14Rule{Exec: []c14Step{az, cx}})},
+		// seeded C14-3: own conditional error handlers replace the default rule's
+		{Def: full, Rule: rl(c14Rule{Eh: []c14Step{e1}})},
+		// audit blind spot 1: rule-level overrides reach the mechanisms
+		{Def: full, Rule: rl(c14Rule{Exec: []c14Step{au2, az, cx, {Fin: k(0), If: "nil", Cfg: "m2"}}, Eh: []c14Step{e2}})},
+		// audit blind spot 6: every step keeps its own condition
+		{Rule: rl(c14Rule{Exec: []c14Step{au, {Authz: k(0), If: "c0", Cfg: "nil"}, {Authz: k(1), If: "c1", Cfg: "nil"}, {Ctx: k(2), If: "c2", Cfg: "nil"}, {Fin: k(3), If: "c3", Cfg: "nil"}}})},
+		// bad override (known mechanism) and unknown mechanism
+		{Rule: rl(c14Rule{Exec: []c14Step{au, {Authz: k(0), If: "nil", Cfg: "badovr"}}})},
+		{Rule: rl(c14Rule{Exec: []c14Step{au, {Fin: c14Key{Present: true, ID: 0}, If: "nil", Cfg: "nil"}}})},
+		// backtracking: own off over default on; unset without default
+		{Def: full, Rule: rl(c14Rule{Exec: []c14Step{au}, Bt: new(bool)})},
+		{Rule: rl(c14Rule{Exec: []c14Step{au}})},
+	}
+}
+
+// the CEL library must agree with the truth table the evaluator uses (Run/Eval_C14.v [holds])
+func c14SelfCheck(t *testing.T) {
+	t.Helper()
+
+	for ci, ex := range c14Conds {
+		cond, err := newCelExecutionCondition(ex)
+		if err != nil {
+			t.Fatalf("driver error: condition %q does not compile: %v", ex, err)
+		}
+
+		for mi, m := range c14Methods {
+			got, err := cond.CanExecuteOnSubject(c14NewCtx(m, "/a", nil), &subject.Subject{ID: "x"})
+			if err != nil || got != c14Holds[ci][mi] {
+				t.Fatalf("driver error: condition %q on %s: %v %v, table says %v", ex, m, got, err, c14Holds[ci][mi])
+			}
+
+			got, err = cond.CanExecuteOnError(c14NewCtx(m, "/a", nil), heimdall.ErrArgument)
+			if err != nil || got != c14Holds[ci][mi] {
+				t.Fatalf("driver error: condition %q on %s (error): %v %v, table says %v", ex, m, got, err, c14Holds[ci][mi])
+			}
+		}
+	}
+}
+
+func TestVerifC14(t *testing.T) {
+	c14SelfCheck(t)
+
+	w := vf.NewWriter()
+	defer w.Close()
+
+	root := vf.NewRand(vf.Seed())
+	n := vf.N(600)
+	idx := 0
+
+	emit := func(stream string, c c14Case) {
+		if vf.Want(idx) {
+			o := c14RunCase(t, c)
+			tags := c14Tags(c, o.Status)
+
+			if o.Class != "" {
+				tags = append(tags, "reject-class:"+o.Class)
+			}
+
+			w.Put(vf.Obs{
+				I: idx, Stream: stream, In: c, Out: o, Coq: c14Coq(c, o),
+				Nontrivial: c14Nontrivial(c, o.Status == "ok", o.Status == "rejected"), Tags: tags,
+			})
+		}
+
+		idx++
+	}
+
+	for _, c := range c14Corpus() {
+		emit("corpus", c)
+	}
+
+	for i := 0; i < n; i++ {
+		emit("generated", c14Gen(root.Fork(uint64(i))))
+	}
+}
+
+// ---- stream 2: YAML rule set -> real parser -> real processor -> real repository ----
+
+type c14SetCase struct {
+	Proxy   bool        `json:"proxy"`
+	Def     *c14Default `json:"default"`
+	Op      string      `json:"op"`      // create | update
+	Preload int         `json:"preload"` // rules r0.. loaded before an update
+	Version string      `json:"version"`
+	Rules   []c14Rule   `json:"rules"`
+}
+
+func c14RuleYaml(sb *strings.Builder, r c14Rule, i int, entries func(c14Step) []c14KV) {
+	sb.WriteString(fmt.Sprintf("  - id: r%d\n", i))
+
+	if r.Extra.Slashes != "" {
+		sb.WriteString("    allow_encoded_slashes: " + r.Extra.Slashes + "\n")
+	}
+
+	sb.WriteString(fmt.Sprintf("    match:\n      routes:\n        - path: /p%d\n", i))
+
+	for j := 0; j < r.Extra.ExtraRoutes; j++ {
+		sb.WriteString(fmt.Sprintf("        - path: /x/p%d/%d/:id\n          path_params:\n            - { name: id, type: glob, value: \"[0-9]*\" }\n", i, j))
+	}
+
+	if r.Bt != nil {
+		sb.WriteString(fmt.Sprintf("      backtracking_enabled: %v\n", *r.Bt))
+	}
+
+	switch {
+	case r.BadMeth:
+		sb.WriteString("      methods: [ \"\" ]\n")
+	case r.Extra.Methods:
+		sb.WriteString("      methods: [ GET, POST, PUT, DELETE ]\n")
+	}
+
+	switch r.Extra.Hosts {
+	case 1:
+		sb.WriteString("      hosts:\n        - { type: exact, value: h.example.com }\n")
+	case 2:
+		sb.WriteString("      hosts:\n        - { type: glob, value: \"*.example.com\" }\n        - { type: exact, value: other }\n")
+	}
+
+	if r.Extra.Scheme {
+		sb.WriteString("      scheme: http\n")
+	}
+
+	if r.Backend {
+		sb.WriteString("    forward_to:\n      host: up.example.com\n")
+
+		if r.Extra.Rewrite {
+			sb.WriteString("      rewrite:\n        scheme: https\n")
+		}
+	}
+
+	c14YamlSteps(sb, "    ", "execute", r.Exec, entries)
+	c14YamlSteps(sb, "    ", "on_error", r.Eh, entries)
+}
+
+func c14SetYaml(version string, rules []c14Rule) string {
+	var sb strings.Builder
+
+	sb.WriteString(fmt.Sprintf("version: %q\nname: test\nrules:\n", version))
+
+	for i, r := range rules {
+		c14RuleYaml(&sb, r, i, c14StubEntries)
+	}
+
+	return sb.String()
+}
+
+// the preloaded rules: one authenticator "9", forward_to present (Model.old_rule_def)
+func c14OldRules(k int) []c14Rule {
+	var out []c14Rule
+
+	for i := 0; i < k; i++ {
+		out = append(out, c14Rule{
+			Exec:    []c14Step{{Authn: c14Key{Present: true, ID: 9, Known: true}, If: "nil", Cfg: "nil"}},
+			Backend: true,
+		})
+	}
+
+	return out
+}
+
+type c14Served struct {
+	Kind string    `json:"kind"` // none default rule
+	ID   string    `json:"id,omitempty"`
+	Runs []c14Run  `json:"runs,omitempty"`
+	Rule *c14RObs  `json:"rule,omitempty"`
+}
+
+type c14SetObs struct {
+	Status   string      `json:"status"` // factory_failed factory_panic panic accepted rejected
+	Served   []c14Served `json:"served,omitempty"`
+	Err      string      `json:"err,omitempty"`
+	Class    string      `json:"class,omitempty"`
+	PreError string      `json:"pre_error,omitempty"`
+}
+
+func c14ParseSet(t *testing.T, yaml, src string) (*config2.RuleSet, error) {
+	t.Helper()
+
+	rs, err := config2.ParseRules("application/yaml", strings.NewReader(yaml), false)
+	if err != nil {
+		return nil, err
+	}
+
+	rs.Source = src
+
+	return rs, nil
+}
+
+func c14RunRuleSet(t *testing.T, c c14SetCase) c14SetObs {
+	t.Helper()
+
+	factory, status, msg := c14NewFactory(c14Factory{}, c14DefaultConf(t, c.Def, c14StubEntries), c.Proxy)
+	if factory == nil {
+		return c14SetObs{Status: status, Err: msg}
+	}
+
+	repo := newRepository(factory)
+	proc := NewRuleSetProcessor(repo, factory)
+	src := c.Rules[0].Extra.SrcID
+
+	if c.Preload > 0 {
+		old, err := c14ParseSet(t, c14SetYaml(config2.CurrentRuleSetVersion, c14OldRules(c.Preload)), src)
+		if err == nil {
+			err = proc.OnCreated(old)
+		}
+
+		if err != nil {
+			t.Fatalf("driver error: the preloaded rule set is refused: %v", err)
+		}
+	}
+
+	obs := c14SetObs{}
+
+	func() {
+		defer func() {
+			if p := recover(); p != nil {
+				obs = c14SetObs{Status: "panic", Err: fmt.Sprint(p)}
+			}
+		}()
+
+		rs, err := c14ParseSet(t, c14SetYaml(c.Version, c.Rules), src)
+		if err != nil {
+			obs = c14SetObs{Status: "rejected", Err: "parse: " + err.Error(), Class: "parse"}
+
+			return
+		}
+
+		if c.Op == "create" {
+			err = proc.OnCreated(rs)
+		} else {
+			err = proc.OnUpdated(rs)
+		}
+
+		if err != nil {
+			obs = c14SetObs{Status: "rejected", Err: err.Error(), Class: c14ErrClass(err)}
+
+			return
+		}
+
+		obs = c14SetObs{Status: "accepted"}
+	}()
+
+	if obs.Status == "panic" {
+		return obs
+	}
+
+	// what the repository serves now: one lookup per path /p0../p3, then the probes on the rule found
+	for i := 0; i < 4; i++ {
+		path := fmt.Sprintf("/p%d", i)
+
+		rul, err := repo.FindRule(c14NewCtx("GET", path, nil))
+		switch {
+		case err != nil:
+			obs.Served = append(obs.Served, c14Served{Kind: "none"})
+		case factory.HasDefaultRule() && rul == factory.DefaultRule():
+			obs.Served = append(obs.Served, c14Served{Kind: "default", Runs: c14Runs(rul, path)})
+		default:
+			if rul.ID() != fmt.Sprintf("r%d", i) {
+				t.Fatalf("driver error: path %s is served by rule %q", path, rul.ID())
+			}
+
+			obs.Served = append(obs.Served, c14Served{Kind: "rule", ID: rul.ID(), Rule: c14ObserveRule(rul, path)})
+		}
+	}
+
+	return obs
+}
+
+func c14CoqServed(s c14Served) string {
+	switch s.Kind {
+	case "none":
+		return "SNone"
+	case "default":
+		return "(SDefault " + vf.CoqListOf(s.Runs, c14CoqRun) + ")"
+	}
+
+	return "(SRule " + c14CoqRObs(s.Rule) + ")"
 }
 
 func c14CoqSet(c c14SetCase, o c14SetObs) string {
-	def := "None"
-	if c.Def != nil {
-		def = "(Some " + vf.CoqApp("dd", vf.CoqListOf(c.Def.Exec, c14CoqStep), vf.CoqListOf(c.Def.Eh, c14CoqEh),
-			vf.CoqBool(c.Def.Bt)) + ")"
-	}
-
 	var obs string
 
 	switch o.Status {
@@ -820,22 +1504,21 @@ func c14CoqSet(c c14SetCase, o c14SetObs) string {
 		obs = "SFactoryFailed"
 	case "factory_panic":
 		obs = "SFactoryPanic"
-	case "rejected":
-		obs = "(SLoaded Rejected)"
 	case "panic":
-		obs = "(SLoaded Panic)"
-	case "ok":
-		obs = "(SLoaded (Ok " + vf.CoqListOf(o.Rules, c14CoqEff) + "))"
-	default: // partially_loaded: not expressible in the model's result type, shown as an accepted empty set
-		obs = "(SLoaded (Ok []))"
+		obs = "SPanic"
+	default:
+		obs = vf.CoqApp("SDone", vf.CoqBool(o.Status == "accepted"), vf.CoqListOf(o.Served, c14CoqServed))
 	}
 
-	return vf.CoqApp("crs", vf.CoqBool(c.Proxy), def, vf.CoqListOf(c.Rules, c14CoqRule), obs)
+	rules := vf.CoqListOf(c.Rules, func(r c14Rule) string { return c14CoqRule(r, c14CoqStep, c14CoqEh) })
+
+	return vf.CoqApp("crs", vf.CoqBool(c.Proxy), c14CoqDefault(c.Def, c14CoqStep, c14CoqEh), vf.CoqNat(c.Preload),
+		vf.CoqBool(c.Version == config2.CurrentRuleSetVersion), rules, obs)
 }
 
 func c14GenSet(r *vf.Rand) c14SetCase {
 	first := c14Gen(r)
-	c := c14SetCase{Proxy: first.Proxy, Def: first.Def, Rules: []c14Rule{first.Rule}}
+	c := c14SetCase{Proxy: first.Proxy, Def: first.Def, Rules: []c14Rule{first.Rule}, Op: "create", Version: config2.CurrentRuleSetVersion}
 
 	// further rules are mostly well-formed so that "one bad rule rejects the set" is exercised
 	for i, n := 0, r.Intn(3); i < n; i++ {
@@ -850,10 +1533,30 @@ func c14GenSet(r *vf.Rand) c14SetCase {
 		c.Rules[0], c.Rules[last] = c.Rules[last], r0
 	}
 
+	// updates are the common path in production: two thirds of the cases
+	if r.Intn(3) != 0 {
+		c.Op = "update"
+		c.Preload = r.Intn(4)
+	}
+
+	if r.Intn(100) < 5 {
+		c.Version = vf.Pick(r, []string{"1alpha3", "1beta1", "2"})
+	}
+
 	return c
 }
 
+func c14SetNontrivial(c c14SetCase, o c14SetObs) bool {
+	if len(c.Rules) > 1 || c.Preload > 0 {
+		return o.Status == "accepted" || o.Status == "rejected"
+	}
+
+	return c14Nontrivial(c14Case{Proxy: c.Proxy, Def: c.Def, Rule: c.Rules[0]}, o.Status == "accepted", o.Status == "rejected")
+}
+
 func TestVerifC14RuleSet(t *testing.T) {
+	c14SelfCheck(t)
+
 	w := vf.NewWriter()
 	defer w.Close()
 
@@ -863,19 +1566,44 @@ func TestVerifC14RuleSet(t *testing.T) {
 
 	emit := func(stream string, c c14SetCase) {
 		if vf.Want(idx) {
-			o := c14RunRuleSet(c)
-			nt := len(c.Rules) > 1 || (len(o.Rules) == 1 && c14Nontrivial(c14Case{Proxy: c.Proxy, Def: c.Def, Rule: c.Rules[0]}, o.Rules[0]))
+			o := c14RunRuleSet(t, c)
+			tags := []string{"rs-status:" + o.Status, fmt.Sprintf("rs-rules:%d", len(c.Rules)), "rs-op:" + c.Op,
+				fmt.Sprintf("rs-preload:%d", c.Preload), fmt.Sprintf("rs-version-ok:%v", c.Version == config2.CurrentRuleSetVersion)}
+
+			if o.Class != "" {
+				tags = append(tags, "rs-reject-class:"+o.Class)
+			}
+
 			w.Put(vf.Obs{
-				I: idx, Stream: stream, In: map[string]any{"case": c, "yaml": c14Yaml(c)}, Out: o, Coq: c14CoqSet(c, o),
-				Nontrivial: nt, Tags: []string{"rs-status:" + o.Status, fmt.Sprintf("rs-rules:%d", len(c.Rules))},
+				I: idx, Stream: stream, In: map[string]any{"case": c, "yaml": c14SetYaml(c.Version, c.Rules)}, Out: o,
+				Coq: c14CoqSet(c, o), Nontrivial: c14SetNontrivial(c, o), Tags: tags,
 			})
 		}
 
 		idx++
 	}
 
-	for _, c := range c14Corpus() {
-		emit("corpus", c14SetCase{Proxy: c.Proxy, Def: c.Def, Rules: []c14Rule{c.Rule}})
+	for i, c := range c14Corpus() {
+		sc := c14SetCase{Proxy: c.Proxy, Def: c.Def, Rules: []c14Rule{c.Rule}, Op: "create", Version: config2.CurrentRuleSetVersion}
+		if i%2 == 1 {
+			sc.Op, sc.Preload = "update", 1+i%3
+		}
+
+		emit("corpus", sc)
+	}
+
+	// audit blind spot 2: a malformed rule in an UPDATED set, next to good ones, over a preloaded set
+	{
+		k := func(id int) c14Key { return c14Key{Present: true, ID: id, Known: true} }
+		au := c14Step{Authn: k(1), If: "nil", Cfg: "nil"}
+		az := c14Step{Authz: k(3), If: "nil", Cfg: "nil"}
+		ex := c14Extra{SrcID: "src"}
+		good := c14Rule{Exec: []c14Step{au, az}, Extra: ex}
+		bad := c14Rule{Exec: []c14Step{az, au}, Extra: ex}
+
+		emit("corpus", c14SetCase{Op: "update", Preload: 2, Version: config2.CurrentRuleSetVersion, Rules: []c14Rule{good, bad, good}})
+		emit("corpus", c14SetCase{Op: "update", Preload: 3, Version: config2.CurrentRuleSetVersion, Rules: []c14Rule{good, good}})
+		emit("corpus", c14SetCase{Op: "update", Preload: 1, Version: "1alpha3", Rules: []c14Rule{good}})
 	}
 
 	for i := 0; i < n; i++ {
@@ -883,31 +1611,447 @@ func TestVerifC14RuleSet(t *testing.T) {
 	}
 }
 
-func TestVerifC14(t *testing.T) {
+// ---- stream 3: the real mechanism factory over a catalogue of real mechanisms --------------------
+
+type c14RealMech struct {
+	id, typ string
+	conf    map[string]any
+	good    string // name of the one override this type accepts besides the empty one ("*": ignores overrides)
+}
+
+//nolint:gochecknoglobals
+var c14Catalogue = map[string][]c14RealMech{
+	"authenticator": {
+		{"a0", "anonymous", map[string]any{"subject": "s0"}, "subject"},
+		{"a1", "anonymous", nil, "subject"},
+		{"a2", "unauthorized", nil, "*"},
+	},
+	"authorizer": {
+		{"z0", "allow", nil, "*"},
+		{"z1", "deny", nil, "*"},
+		{"z2", "cel", map[string]any{"expressions": []any{map[string]any{"expression": "true == true"}}}, "expressions"},
+	},
+	"contextualizer": {
+		{"c0", "generic", map[string]any{"endpoint": map[string]any{"url": "http://127.0.0.1:1/c0"}}, "values"},
+		{"c1", "generic", map[string]any{"endpoint": map[string]any{"url": "http://127.0.0.1:1/c1"}, "values": map[string]any{"k": "v"}}, "values"},
+	},
+	"finalizer": {
+		{"f0", "header", map[string]any{"headers": map[string]any{"X-A": "a"}}, "headers"},
+		{"f1", "noop", nil, "*"},
+		{"f2", "header", map[string]any{"headers": map[string]any{"X-B": "{{ .Subject.ID }}"}}, "headers"},
+	},
+	"error_handler": {
+		{"e0", "default", nil, ""},
+		{"e1", "redirect", map[string]any{"to": "http://login.example.com/"}, ""},
+		{"e2", "www_authenticate", map[string]any{"realm": "r"}, "realm"},
+	},
+}
+
+//nolint:gochecknoglobals
+var c14Overrides = map[string]map[string]any{
+	"empty":       {},
+	"subject":     {"subject": "o"},
+	"expressions": {"expressions": []any{map[string]any{"expression": "Request.Method == \"GET\""}}},
+	"values":      {"values": map[string]any{"a": "b"}},
+	"headers":     {"headers": map[string]any{"X-O": "o"}},
+	"realm":       {"realm": "q"},
+	"unknown":     {"zz_unknown_option": "x"},
+	// wrong type / invalid content of the one option the type has
+	"bad-subject":     {"subject": []any{"a"}},
+	"bad-expressions": {"expressions": []any{map[string]any{"expression": "foo("}}},
+	"bad-values":      {"values": 17},
+	"bad-headers":     {"headers": 17},
+	"bad-realm":       {"realm": []any{"a"}},
+	"bad-":            {"to": "http://elsewhere.example.com/"},
+	"bad-*":           {"anything": 1},
+}
+
+func c14RealOf(name string, k c14Key) (c14RealMech, bool) {
+	cat := c14Catalogue[name]
+	if !k.Known || k.NotStr != 0 {
+		return c14RealMech{}, false
+	}
+
+	return cat[k.ID%len(cat)], true
+}
+
+// the reference as written in the rule: a catalogue id, an id of another kind, or an id nobody has
+func c14RealRef(name string, k c14Key) any {
+	if k.NotStr != 0 {
+		return c14KeyVal(k)
+	}
+
+	if m, ok := c14RealOf(name, k); ok {
+		return m.id
+	}
+
+	if k.WrongKind {
+		other := map[string]string{"authenticator": "authorizer", "authorizer": "finalizer", "contextualizer": "authenticator",
+			"finalizer": "error_handler", "error_handler": "contextualizer"}[name]
+
+		return c14Catalogue[other][k.ID%len(c14Catalogue[other])].id
+	}
+
+	return fmt.Sprintf("%c%d", name[0], 10+k.ID)
+}
+
+func c14RealFirst(s c14Step) (string, c14Key, bool) {
+	for _, e := range []struct {
+		name string
+		k    c14Key
+	}{{"authenticator", s.Authn}, {"authorizer", s.Authz}, {"contextualizer", s.Ctx}, {"finalizer", s.Fin}, {"error_handler", s.Eh}} {
+		if e.k.Present {
+			return e.name, e.k, true
+		}
+	}
+
+	return "", c14Key{}, false
+}
+
+// the override a step carries: chosen for the type of the first mechanism the step names
+func c14RealOverride(s c14Step) (string, any, bool) {
+	switch s.Cfg {
+	case "nil":
+		return "", nil, false
+	case "scalar":
+		return "scalar", "scalar", true
+	case "empty":
+		return "empty", c14Overrides["empty"], true
+	}
+
+	good := "subject"
+
+	if name, k, ok := c14RealFirst(s); ok {
+		if m, ok := c14RealOf(name, k); ok {
+			good = m.good
+		}
+	}
+
+	name := "unknown"
+
+	switch s.Cfg {
+	case "good":
+		name = good
+		if good == "" || good == "*" {
+			name = "empty"
+		}
+	case "badtype":
+		name = "bad-" + good
+	}
+
+	return name, c14Overrides[name], true
+}
+
+// the driver's table: does a mechanism of this catalogue entry accept this override (transcribed from the
+// documentation of the mechanism types: which options a type has; types without options ignore overrides,
+// the default and redirect error handlers cannot be reconfigured)
+func c14RealOK(name string, k c14Key, s c14Step) bool {
+	m, ok := c14RealOf(name, k)
+	if !ok {
+		return false
+	}
+
+	ovr, _, present := c14RealOverride(s)
+
+	return !present || ovr == "empty" || m.good == "*" || (ovr == m.good && ovr != "scalar")
+}
+
+func c14RealEntries(s c14Step) []c14KV {
+	return c14StepEntries(s, func(k c14Key, name string) any { return c14RealRef(name, k) },
+		func(s c14Step) (any, bool) { _, v, ok := c14RealOverride(s); return v, ok })
+}
+
+func c14RealCoqCfg(s c14Step) string {
+	switch s.Cfg {
+	case "nil":
+		return "CfgNil"
+	case "scalar":
+		return "CfgBad"
+	}
+
+	return "(CfgMap 0%nat)"
+}
+
+func c14RealCoqKey(name string, k c14Key, s c14Step) string {
+	if !k.Present {
+		return "None"
+	}
+
+	id := k.ID
+	if m, ok := c14RealOf(name, k); ok {
+		id = int(m.id[1] - '0')
+	}
+
+	return "(Some (kv " + vf.CoqOpt(k.NotStr == 0, vf.CoqNat(id)) + " " + vf.CoqBool(c14RealOK(name, k, s)) + "))"
+}
+
+func c14RealCoqStep(s c14Step) string {
+	return vf.CoqApp("st", c14RealCoqKey("authenticator", s.Authn, s), c14RealCoqKey("authorizer", s.Authz, s),
+		c14RealCoqKey("contextualizer", s.Ctx, s), c14RealCoqKey("finalizer", s.Fin, s), c14CoqIf(s.If), c14RealCoqCfg(s))
+}
+
+func c14RealCoqEh(s c14Step) string {
+	return vf.CoqApp("eh", c14RealCoqKey("error_handler", s.Eh, s), c14CoqIf(s.If), c14RealCoqCfg(s))
+}
+
+func c14RealGen(r *vf.Rand) c14Case {
+	c := c14Gen(r)
+
+	fix := func(ss []c14Step) {
+		for i := range ss {
+			switch x := r.Intn(100); {
+			case x < 45:
+				ss[i].Cfg = "nil"
+			case x < 55:
+				ss[i].Cfg = "empty"
+			case x < 75:
+				ss[i].Cfg = "good"
+			case x < 85:
+				ss[i].Cfg = "unknown"
+			case x < 95:
+				ss[i].Cfg = "badtype"
+			default:
+				ss[i].Cfg = "scalar"
+			}
+		}
+	}
+
+	if c.Def != nil {
+		c.Def.Via = "struct"
+
+		for i := range c.Def.Exec {
+			if c.Def.Exec[i].Cfg != "nil" {
+				c.Def.Exec[i].Cfg = vf.Pick(r, []string{"good", "good", "empty", "unknown"})
+			}
+		}
+
+		for i := range c.Def.Eh {
+			if c.Def.Eh[i].Cfg != "nil" {
+				c.Def.Eh[i].Cfg = vf.Pick(r, []string{"good", "empty"})
+			}
+		}
+	}
+
+	fix(c.Rule.Exec)
+	fix(c.Rule.Eh)
+
+	return c
+}
+
+type c14IDs struct {
+	Sc []string `json:"sc"`
+	Sh []string `json:"sh"`
+	Fi []string `json:"fi"`
+	Eh []string `json:"eh"`
+	Bt bool     `json:"bt"`
+}
+
+type c14RealObs struct {
+	Status string  `json:"status"`
+	IDs    *c14IDs `json:"ids,omitempty"`
+	Err    string  `json:"err,omitempty"`
+	Class  string  `json:"class,omitempty"`
+}
+
+// the ids of the created mechanisms, read from the rule (in-package); anything unexpected here is a
+// failing driver, never an observation
+func c14ReadIDs(t *testing.T, rul rule.Rule) *c14IDs {
+	t.Helper()
+
+	impl, ok := rul.(*ruleImpl)
+	if !ok {
+		t.Fatalf("driver error: the rule factory returned a %T", rul)
+	}
+
+	ids := &c14IDs{Bt: rul.AllowsBacktracking()}
+
+	for _, a := range impl.sc {
+		withID, ok := a.(interface{ ID() string })
+		if !ok {
+			t.Fatalf("driver error: authenticator of type %T has no ID()", a)
+		}
+
+		ids.Sc = append(ids.Sc, withID.ID())
+	}
+
+	for _, h := range impl.sh {
+		ids.Sh = append(ids.Sh, h.ID())
+	}
+
+	for _, h := range impl.fi {
+		ids.Fi = append(ids.Fi, h.ID())
+	}
+
+	for _, h := range impl.eh {
+		ids.Eh = append(ids.Eh, h.ID())
+	}
+
+	return ids
+}
+
+func c14CoqID(t *testing.T) func(string) string {
+	return func(id string) string {
+		kinds := map[byte]string{'a': "KAuthn", 'z': "KAuthz", 'c': "KCtx", 'f': "KFin", 'e': "KEh"}
+		if len(id) != 2 || kinds[id[0]] == "" || id[1] < '0' || id[1] > '9' {
+			t.Fatalf("driver error: unexpected mechanism id %q", id)
+		}
+
+		return "(" + kinds[id[0]] + ", " + vf.CoqNat(int(id[1]-'0')) + ")"
+	}
+}
+
+func c14RealCoq(t *testing.T, c c14Case, o c14RealObs) string {
+	var obs string
+
+	switch o.Status {
+	case "factory_failed":
+		obs = "FactoryFailed"
+	case "factory_panic":
+		obs = "FactoryPanic"
+	case "rejected":
+		obs = "(Loaded Rejected)"
+	case "panic":
+		obs = "(Loaded Panic)"
+	default:
+		f := c14CoqID(t)
+		obs = "(Loaded (Ok " + vf.CoqApp("io", vf.CoqListOf(o.IDs.Sc, f), vf.CoqListOf(o.IDs.Sh, f), vf.CoqListOf(o.IDs.Fi, f),
+			vf.CoqListOf(o.IDs.Eh, f), vf.CoqBool(o.IDs.Bt)) + "))"
+	}
+
+	return vf.CoqApp("csi", vf.CoqBool(c.Proxy), c14CoqDefault(c.Def, c14RealCoqStep, c14RealCoqEh),
+		c14CoqRule(c.Rule, c14RealCoqStep, c14RealCoqEh), obs)
+}
+
+func c14RealFactory(t *testing.T) mechanisms.MechanismFactory {
+	t.Helper()
+
+	protos := func(name string) []config.Mechanism {
+		var out []config.Mechanism
+		for _, m := range c14Catalogue[name] {
+			out = append(out, config.Mechanism{ID: m.id, Type: m.typ, Config: m.conf})
+		}
+
+		return out
+	}
+
+	hf, err := mechanisms.NewMechanismFactory(&config.Configuration{Prototypes: &config.MechanismPrototypes{
+		Authenticators:  protos("authenticator"),
+		Authorizers:     protos("authorizer"),
+		Contextualizers: protos("contextualizer"),
+		Finalizers:      protos("finalizer"),
+		ErrorHandlers:   protos("error_handler"),
+	}}, zerolog.Nop(), nil, nil, nil)
+	if err != nil {
+		t.Fatalf("driver error: the real mechanism factory refuses the catalogue: %v", err)
+	}
+
+	return hf
+}
+
+func c14RealRun(t *testing.T, hf mechanisms.MechanismFactory, c c14Case) c14RealObs {
+	t.Helper()
+
+	f, status, msg := c14NewFactory(hf, c14DefaultConf(t, c.Def, c14RealEntries), c.Proxy)
+	if f == nil {
+		return c14RealObs{Status: status, Err: msg}
+	}
+
+	rul, o := c14Create(f, c.Rule.Extra.Version, c.Rule.Extra.SrcID, c14RuleConfig(c.Rule, "r", "/a", c14RealEntries))
+	ro := c14RealObs{Status: o.Status, Err: o.Err, Class: o.Class}
+
+	if rul != nil {
+		ro.IDs = c14ReadIDs(t, rul)
+	}
+
+	return ro
+}
+
+func c14RealCorpus() []c14Case {
+	k := func(id int) c14Key { return c14Key{Present: true, ID: id, Known: true} }
+	au := c14Step{Authn: k(0), If: "nil", Cfg: "nil"}
+	ex := c14Extra{SrcID: "src", Version: "1alpha4"}
+	mk := func(steps []c14Step, eh []c14Step) c14Case { return c14Case{Rule: c14Rule{Exec: steps, Eh: eh, Extra: ex}} }
+
+	return []c14Case{
+		mk([]c14Step{{Authn: k(0), If: "nil", Cfg: "good"}, {Authz: k(2), If: "c0", Cfg: "good"}, {Ctx: k(0), If: "nil", Cfg: "good"}, {Fin: k(0), If: "nil", Cfg: "good"}},
+			[]c14Step{{Eh: k(2), If: "nil", Cfg: "good"}, {Eh: k(0), If: "nil", Cfg: "nil"}}),
+		// bad overrides of every type that has options
+		mk([]c14Step{{Authn: k(0), If: "nil", Cfg: "unknown"}}, nil),
+		mk([]c14Step{{Authn: k(1), If: "nil", Cfg: "badtype"}}, nil),
+		mk([]c14Step{au, {Authz: k(2), If: "nil", Cfg: "badtype"}}, nil),
+		mk([]c14Step{au, {Ctx: k(1), If: "nil", Cfg: "unknown"}}, nil),
+		mk([]c14Step{au, {Fin: k(0), If: "nil", Cfg: "badtype"}}, nil),
+		mk([]c14Step{au}, []c14Step{{Eh: k(2), If: "nil", Cfg: "unknown"}}),
+		mk([]c14Step{au}, []c14Step{{Eh: k(0), If: "nil", Cfg: "unknown"}}),
+		mk([]c14Step{au}, []c14Step{{Eh: k(1), If: "nil", Cfg: "badtype"}}),
+		// unknown id, id of another kind
+		mk([]c14Step{au, {Authz: c14Key{Present: true, ID: 1}, If: "nil", Cfg: "nil"}}, nil),
+		mk([]c14Step{au, {Fin: c14Key{Present: true, ID: 1, WrongKind: true}, If: "nil", Cfg: "nil"}}, nil),
+		// types without options ignore an override
+		mk([]c14Step{{Authn: k(2), If: "nil", Cfg: "unknown"}, {Authz: k(0), If: "nil", Cfg: "badtype"}, {Fin: k(1), If: "nil", Cfg: "unknown"}}, nil),
+	}
+}
+
+func TestVerifC14Real(t *testing.T) {
 	w := vf.NewWriter()
 	defer w.Close()
 
-	root := vf.NewRand(vf.Seed())
-	n := vf.N(600)
+	hf := c14RealFactory(t)
+	root := vf.NewRand(vf.Seed() + 2000003)
+	n := vf.N(400)
 	idx := 0
 
 	emit := func(stream string, c c14Case) {
 		if vf.Want(idx) {
-			o := c14Run(c)
+			o := c14RealRun(t, hf, c)
+			tags := []string{"real-status:" + o.Status, fmt.Sprintf("real-scoped:%v", c14Scoped(c))}
+
+			if o.Class != "" {
+				tags = append(tags, "real-reject-class:"+o.Class)
+			}
+
+			for _, s := range append(append([]c14Step{}, c.Rule.Exec...), c.Rule.Eh...) {
+				if name, k, ok := c14RealFirst(s); ok {
+					if m, ok := c14RealOf(name, k); ok {
+						ovr, _, _ := c14RealOverride(s)
+						tags = append(tags, fmt.Sprintf("real-override:%s/%s=%v", m.typ, strings.TrimSuffix(ovr, "-"+m.good), c14RealOK(name, k, s)))
+					} else {
+						tags = append(tags, "real-reference:unknown")
+					}
+				}
+			}
+
 			w.Put(vf.Obs{
-				I: idx, Stream: stream, In: c, Out: o, Coq: c14Coq(c, o),
-				Nontrivial: c14Nontrivial(c, o), Tags: []string{"status:" + o.Status},
+				I: idx, Stream: stream, In: map[string]any{"case": c, "rule": c14RuleConfig(c.Rule, "r", "/a", c14RealEntries)}, Out: o,
+				Coq: c14RealCoq(t, c, o), Nontrivial: c14Scoped(c) && (o.Status == "ok" || o.Status == "rejected") && len(c.Rule.Exec) > 0,
+				Tags: c14Dedup(tags),
 			})
 		}
 
 		idx++
 	}
 
-	for _, c := range c14Corpus() {
+	for _, c := range c14RealCorpus() {
 		emit("corpus", c)
 	}
 
 	for i := 0; i < n; i++ {
-		emit("generated", c14Gen(root.Fork(uint64(i))))
+		emit("generated", c14RealGen(root.Fork(uint64(i))))
 	}
+}
+
+func c14Dedup(tags []string) []string {
+	seen := map[string]bool{}
+
+	var out []string
+
+	for _, t := range tags {
+		if !seen[t] {
+			seen[t] = true
+
+			out = append(out, t)
+		}
+	}
+
+	return out
 }
